@@ -700,8 +700,6 @@ class Client:
         )
         if code == "OK":
             lines = content.splitlines()
-            if self.__size_expr.match(lines[0]) is not None:
-                lines = lines[1:]
             return "\n".join([line.decode("utf-8") for line in lines])
         return None
 
